@@ -241,6 +241,18 @@ def _build():
 
 
 FINDINGS = _build() + [
+    dict(id="C14-function-without-docstring-has-no-doc-key", property="C14",
+         pattern=dict(check="wellformed", parser={"in": ["function", "function_infer"]}, source="layout", clause="doc_missing"),
+         what="function.parse of a function without a docstring returns an interface without the 'doc' key (the no-docstring branch builds the dict by hand); pinned by test_from_function, so not repaired",
+         site="cdd/function/parse.py:function (`if doc_str is None:`)", example="def f(a):\n    x = 1\n    return a"),
+    dict(id="C14-layout-untyped-parameter-typ-none", property="C14",
+         pattern=dict(check="wellformed", parser={"in": ["function", "function_infer"]}, source="layout", clause="typ_not_str", entry="param", has_default=False),
+         what="[R-typ-none] 'typ': None for an unannotated, undocumented parameter (same root cause as the partial-signature family), seen in the layout family",
+         site="cdd/function/parse.py:function / cdd/shared/ast_utils.py:func_arg2param", example="def f(a):\n    x = 1\n    return a"),
+    dict(id="C14-layout-argparse-doc-none", property="C14",
+         pattern=dict(check="wellformed", parser="argparse", source="layout", clause="entry_doc_not_str"),
+         what="[R-argparse-doc-none] argparse parser returns 'doc': None for an option without help text (layout family: nargs/action/count options, options without help)",
+         site="cdd/argparse_function/utils/emit_utils.py:parse_out_param", example="argument_parser.add_argument('--count', action='count', default=0)"),
     dict(id="C14-live-function-untyped-parameter-typ-none", property="C14",
          pattern=dict(check="wellformed", parser="function_live", source="live", clause="typ_not_str", entry="param", has_default=False),
          what="[R-typ-none] the same through the inspect path: function.parse of a live function returns 'typ': None for a parameter that is neither annotated nor given a default",
@@ -263,6 +275,7 @@ FINDINGS = _build() + [
          example="{'properties': {'alpha': {'type': 'string', 'pattern': ''}}} -> params['alpha'] == {'typ': 'str', 'pattern': ''}"),
 ]
 FIXED = [
+    "fixed: property=C14 6feeb94 argparse parser: add_argument('-n', '--name') returned a parameter with the empty name (and a positional 'name' the name 'me'): two characters were cut off the first option string",
     "fixed: property=C14 520cde0 live function/class (inspect path): a builtin annotation came back as the type \"<class 'int'>\" (not an expression), 'str' as 'r'",
     "fixed: property=C14 4aca4fd live class without a docstring: the result had no 'doc' key (and no 'returns')",
 ]
